@@ -270,7 +270,7 @@ func NewHeaderVersion(param, key string, errlog func(error), version ...string) 
 }
 
 func (v *headerVersion) Match(r *http.Request, ctx *types.Context) bool {
-	header := r.Header.Get(header.Accept)
+	header := strings.Join(r.Header.Values(header.Accept), ",") // 多行的报头等同于以逗号连接的一行
 	if header == "" {
 		return false
 	}
